@@ -75,6 +75,10 @@ L2_AGG = ["RModel.Impl.Rep.toBSet_fastOr", "RModel.Impl.Rep.wf_fastOr", "RModel.
 IT = "RModel.Impl.It."
 L2_ITER = [IT + "IntIt.drain_create", IT + "IntIt.advanceIfNeeded_spec", IT + "IntIt.advance_from_cursor", IT + "IntIt.peek_eq_nextValue",
            IT + "IntRevIt.drain_create", IT + "ManyIt.nextManySeq_create", IT + "CIt.drain_ofCont"]
+L2_ITER2 = [IT + n for n in ["UnsetIt.drain_create", "UnsetIt.advanceIfNeeded_spec", "UnsetIt.hasNext_spec", "UnsetIt.next_spec",
+            "absVals_eq_toList", "UCIt.drain_ofCont", "iterateRep_spec", "iterateSeen_spec", "valuesRep_spec", "backwardRep_spec",
+            "unsetRep_spec", "rangesSeen_spec", "IntIt64.drain_create", "IntIt64.advanceIfNeeded_spec", "IntIt64.peek_eq_nextValue",
+            "IntRevIt64.drain_create", "ManyIt64.nextMany_spec", "ManyIt64.nextManySeq_create"]]
 RP = "RModel.Impl.Rep."
 L2_REPMUT = [RP + n for n in ["toBSet_add", "toBSet_remove", "toBSet_addRange", "toBSet_removeRange", "toBSet_flip", "toBSet_runOptimize",
                               "checkedAdd_snd", "checkedRemove_snd"]]
@@ -114,12 +118,13 @@ PROPS = {
     "C03": {"suites": [("query", 1.0), ("kernq", 0.3), ("eqpairs", 0.5), ("kernq2", 0.3), ("l2q", 0.7)], "theorems": L1_QUERY + L2_QUERY + L2_REPQ,
             "modules": DEFAULT_MODULES + ["RProofs.ContQuery", "RProofs.ContQueryNumRuns", "RProofs.RepQuery"],
             "owns": {"card", "empty", "has", "min", "max", "rank", "sel", "cir", "iwi", "eq", "toarr", "toexarr", "chkeq", "dig", "kern", "mkrepr", "l2q", "l2q2"}},
-    "C04": {"suites": [("iter", 1.0), ("iterun", 1.0), ("l2iter", 0.6)], "modules": DEFAULT_MODULES + ["RProofs.Iter", "RProofs.IterAdv", "RProofs.IterRev", "RProofs.IterMany"],
+    "C04": {"suites": [("iter", 1.0), ("iterun", 1.0), ("l2iter", 0.6), ("l2iter2", 0.5)], "modules": DEFAULT_MODULES + ["RProofs.Iter", "RProofs.IterAdv", "RProofs.IterRev", "RProofs.IterMany", "RProofs.Iter2"],
             "theorems": L1_NBR[:4] + ["RModel.BSet.rankLt_eq_count", "RModel.BSet.card_eq_rankLt", "RModel.BSet.select_spec",
                                       "RModel.BSet.select_none", "RModel.BSet.mem_toList", "RModel.BSet.toList_sorted",
-                                      "RModel.BSet.mem_inter", "RModel.BSet.mem_xor", "RModel.BSet.canon_ext"] + L2_ITER,
+                                      "RModel.BSet.mem_inter", "RModel.BSet.mem_xor", "RModel.BSet.canon_ext"] + L2_ITER + L2_ITER2,
             "owns": {"it", "rit", "mit", "uit", "reinit", "hasnext", "next?", "next!", "peek?", "peek!", "adv", "advrel", "many",
-                     "manyhs", "drain", "iterate", "values", "backward", "unset", "ranges", "l2it", "l2reinit"}},
+                     "manyhs", "drain", "iterate", "values", "backward", "unset", "ranges", "l2it", "l2reinit",
+                     "l2iterate", "l2seq", "l2ranges", "l2it64", "l2reit64", "hasnext64", "next64", "peek64", "adv64", "many64", "drain64"}},
     "C05": {"suites": [("ser", 1.0), ("thresh", 1.0), ("serall", 1.0)],
             "theorems": ["RModel.Impl.encode_length", "RModel.Impl.decode_encode", "RModel.Impl.prefix_rejected",
                          "RModel.Impl.decode_no_panic", "RModel.Impl.roundtrip_wf", "RModel.BSet.canon_ext"] + F_SERIAL,
@@ -180,7 +185,7 @@ PROPS = {
             "modules": DEFAULT_MODULES + ["RProofs.RepXform"],
             "owns": {"off", "off32", "sflip", "eq", "dense", "fromdense", "frombitset", "densechk", "dig",
                      "zdense", "zfromdense", "safe", "digall", "zdetach", "zsame", "l2off", "l2sflip", "l2dense", "l2fromdense"}},
-    "C17": {"suites": [("r64", 1.0), ("l2r64", 0.6)], "theorems": L1_ALGEBRA + L1_MUT[:5] + L1_QUERY[:9] + L1_NBR[:4] +
+    "C17": {"suites": [("r64", 1.0), ("l2r64", 0.6), ("l2iter2", 0.3)], "theorems": L1_ALGEBRA + L1_MUT[:5] + L1_QUERY[:9] + L1_NBR[:4] +
             ["RModel.Facts.r64Highbits_spec", "RModel.Facts.r64Lowbits_spec"] + L2_R64 + ["RModel.Impl.Rep64.toBSetFast_eq'"],
             "modules": DEFAULT_MODULES + ["RProofs.Facts.Bits", FASTEQ_MOD, "RProofs.Rep64", "RProofs.Rep64Range", "RProofs.Rep64InPlace", "RProofs.Rep64Witness"], "owns": None},
     "C18": {"suites": [("ser64", 1.0), ("l2ser64", 1.0)],
